@@ -432,6 +432,20 @@ def parseHdrBlock : Nat → Bytes → List (Bytes × Bytes) → HdrParse
           if key.length = 0 then parseHdrBlock fuel rest acc
           else parseHdrBlock fuel rest (acc ++ [(key, value)])
 
+/-- some line of the header block (up to the blank line) starts with SP/HT: textproto joins it to the PREVIOUS line
+    (continuation), which the model does not follow — such blocks are `unmodelled` as a whole, whatever else they contain -/
+def hasContLine : Nat → Bytes → Bool
+  | 0, _ => false
+  | fuel + 1, s =>
+    match splitLine s with
+    | none => false
+    | some (l0, rest) =>
+      let l := stripCR l0
+      if l.length = 0 then false
+      else if isWs (l.headD 0) then true
+      else if isWs (rest.headD 0) && rest.length != 0 then true   -- also when that line never ends (no LF before EOF)
+      else hasContLine fuel rest
+
 /-- `strconv.Atoi` / `ParseInt(s, 10, 64)` -/
 def atoi (s : Bytes) : Option Int :=
   let (neg, ds) := match s with
@@ -466,6 +480,7 @@ def sTE : Bytes := [84, 114, 97, 110, 115, 102, 101, 114, 45, 69, 110, 99, 111, 
 def sChunked : Bytes := [99, 104, 117, 110, 107, 101, 100]
 
 def readResponse (stream : Bytes) : CgiResult :=
+  if hasContLine (stream.length + 1) stream then .unmodelled else
   match parseHdrBlock (stream.length + 1) stream [] with
   | .unmodelled => .unmodelled
   | .err => .err
